@@ -37,7 +37,7 @@ PROPS = {
                 families=["wrap", "basic", "helping"], scenarios=["s15", "s23"]),
     "C14": dict(props="Props/C14.v", runner="seq"),
     "C15": dict(props="Props/C15.v", runner="refcnt"),
-    "C16": dict(props="Props/C16.v", runner="conc", families=["cache"], scenarios=["s12"], deep=["s12"]),
+    "C16": dict(props="Props/C16.v", runner="conc", families=["cache"], scenarios=["s12"], deep=["s12"], stale3=True),
     "C17": dict(props="Props/C17.v", runner="access",
                 conc_grids=[("g02_stale_replacement", "C03", "a load started after a completed store must project that store's value or a later one")]),
     "C18": dict(props="Props/C18.v", runner="conc", families=["panic"], scenarios=["s18", "s09"]),
